@@ -737,8 +737,22 @@ fn bulk(store: &TensorStore, rel: &RelationalEngine, seed: u64, n: u32, probes: 
         )
         .is_ok();
     let mut rows = Vec::new();
+    // one bulk in four is highly redundant (every entry carries the same long text and a block of
+    // zero bytes): its snapshot compresses several hundred to one
+    let redundant = seed % 4 == 0;
+    if redundant {
+        probes.classes.insert("metadata");
+    }
     for i in 0..u64::from(n) {
         let h = mix(seed ^ i.wrapping_mul(0x9e37_79b9));
+        if redundant {
+            let mut d = TensorData::new();
+            d.set("body", TensorValue::Scalar(ScalarValue::String("lorem ipsum dolor sit amet, consectetur adipiscing elit ".repeat(28))));
+            d.set("pad", TensorValue::Scalar(ScalarValue::Bytes(vec![0u8; 6144])));
+            d.set("n", TensorValue::Scalar(ScalarValue::Int(i as i64)));
+            let _ = store.put(format!("bulk:{i:06}"), d);
+            continue;
+        }
         match h % 8 {
             0..=3 => {
                 let mut d = TensorData::new();
